@@ -438,7 +438,7 @@ def big_starts(n, mult=BIG_MULT, mod=BIG_MOD):
     return starts
 
 
-def eval_big(n, mult=BIG_MULT, mod=BIG_MOD):
+def eval_big(n, mult=BIG_MULT, mod=BIG_MOD, div=1):
     """More records than the writer keeps in memory (10000): several spilled runs with interleaving key ranges are merged at close().
     Shared by run and replay_case; returns (start positions of the body, failures)."""
     from maflib.header import MafHeader
@@ -447,16 +447,26 @@ def eval_big(n, mult=BIG_MULT, mod=BIG_MOD):
     from maflib.writer import MafWriter
     buf = impl.RecordingHandle()
     w = MafWriter.from_fd(buf, MafHeader.from_lines(BIG_HEADER, validation_stringency=VS.Silent), validation_stringency=VS.Silent, assume_sorted=False)
-    for s0 in big_starts(n, mult, mod):
-        w += MafRecord.from_line("G\tchr1\t%d\t%d" % (s0, s0), column_names=["Hugo_Symbol", "Chromosome", "Start_Position", "End_Position"],
-                                 validation_stringency=VS.Silent)
-    w.close()
-    body = [l for l in buf.text().split("\n")[4:] if l]
+    # what rebuilds the input: records G/chr1/(s // div)/(s // div) for s in 0..n-1 (div > 1: equal keys, which meet at the
+    # heads of different runs), added in the order sorted by ((s*mult) % mod, s)
+    case = {"case": "big-file", "n": n, "interleave": {"mult": mult, "mod": mod}, "div": div}
+    try:
+        for s0 in big_starts(n, mult, mod):
+            w += MafRecord.from_line("G\tchr1\t%d\t%d" % (s0 // div, s0 // div), column_names=["Hugo_Symbol", "Chromosome", "Start_Position", "End_Position"],
+                                     validation_stringency=VS.Silent)
+        w.close()
+    except Exception as e:  # noqa
+        return [], [dict(case, what="a %d-record sorting write of well-formed records failed with %s" % (n, exc_name(e)), kind="big-exception")]
+    text = buf.text()
+    body = text.split("\n")[4:]
+    if body and body[-1] == "":
+        body.pop()
+    if any(l == "" for l in body):
+        return [], [dict(case, what="after a %d-record sorting write the file holds %d lines after the column line (an empty line is no record that was written)" % (n, len(body)),
+                         kind="big-extra-line")]
     got = [int(l.split("\t")[2]) for l in body]
-    # what rebuilds the input: records G/chr1/s/s for s in 0..n-1, added in the order sorted by ((s*mult) % mod, s)
-    case = {"case": "big-file", "n": n, "interleave": {"mult": mult, "mod": mod}}
     fails = []
-    if sorted(got) != list(range(n)):
+    if sorted(got) != sorted(x // div for x in range(n)):
         fails.append(dict(case, what="a %d-record sorting write lost or duplicated records" % n, kind="not-permutation"))
     elif got != sorted(got):
         k = next(i for i in range(len(got) - 1) if got[i] > got[i + 1])
@@ -472,6 +482,19 @@ def big_file_case(ctx, out, rng):
     out.failures += fails
     out.nontrivial.add(("big", n))
     out.distribution["big_file_records"] += n
+    # equal keys that meet at the heads of different spilled runs
+    n2 = 10000 + rng.randrange(300, 900)
+    out.evaluations += 1
+    got, fails = eval_big(n2, div=2)
+    out.failures += fails
+    out.nontrivial.add(("big-ties", n2))
+    out.distribution["big_file_records"] += n2
+    # round numbers of records (block sizes of a buffered implementation)
+    for n3 in (499, 500, 501, 1000, 1024):
+        out.evaluations += 1
+        got, fails = eval_big(n3)
+        out.failures += fails
+        out.nontrivial.add(("round", n3))
 
 
 def header_decl(header):
@@ -502,10 +525,11 @@ def replay_case(ctx, failure):
         n = int(failure["n"])
         il = failure.get("interleave") or {}
         mult, mod = il.get("mult", BIG_MULT), il.get("mod", BIG_MOD)
-        print("sorting writer (Silent, header %s): %d scheme-less records G/chr1/s/s, s in 0..%d, added in the order sorted by ((s*%d) %% %d, s); close()" % (
-            BIG_HEADER, n, n - 1, mult, mod))
+        div = int(failure.get("div", 1))
+        print("sorting writer (Silent, header %s): %d scheme-less records G/chr1/p/p with p = s // %d, s in 0..%d, added in the order sorted by ((s*%d) %% %d, s); close()" % (
+            BIG_HEADER, n, div, n - 1, mult, mod))
         try:
-            got, fails = eval_big(n, mult, mod)
+            got, fails = eval_big(n, mult, mod, div)
         except Exception as e:  # noqa
             print("implementation: raised %s" % exc_name(e))
             return [{"case": "big-file", "n": n, "interleave": {"mult": mult, "mod": mod}, "kind": "write-failed",
